@@ -35,6 +35,9 @@ ReasonsAt(e, mt, k) ==
    (IF HasCall(c, 4) # due THEN {"body-run-mismatch"} ELSE {}) \cup
    (IF HasCall(c, 4) /\ ~(e.inst[k] = 1 /\ Before(c, 1, 4) /\ (mt.cfgable[i] => Before(c, 2, 4))) THEN {"not-fresh-configured"} ELSE {}) \cup
    (IF Len(e.runSt) > 0 /\ (e.runSt[k] # obs \/ (obs = want.st /\ want.why = "body" /\ e.runDg[k] # e.obsDg[k])) THEN {"run-differs"} ELSE {}) \cup
+   \* the deprecated lookup (Registry.ByName -> *lint.Lint -> Execute) is the same lint: same window, same verdict
+   (IF e.depSt[k] # -9 /\ e.depSt[k] # obs /\ obs = want.st
+       THEN {IF e.depSt[k] \in Judged /\ ~InWindow(m.eff, m.ineff, e.t) THEN "window-finding-outside-through-deprecated-lookup" ELSE "deprecated-lookup-differs"} ELSE {}) \cup
    \* fidelity (never gating): the exact call sequence of base.go
    (IF c # CallCodes(Calls(e.kind, m, mt.cfgable[i], f, e.cfg[k], appl = 1, e.t)) /\ appl # -1 THEN {"fid-call-sequence"} ELSE {})
 
